@@ -211,6 +211,9 @@ def audit_cases():
             inc = '' if i == 23 else '#include "l%d.prophy"\n#include "r%d.prophy"\n' % (i + 1, i + 1)
             diamond['%s%d.prophy' % (side, i)] = inc + 'struct %s%d { u8 a; };\n' % (side.upper(), i)
     cases.append(('diamond-shaped include graph, 24 levels (48 files)', outs + ['-I', '@D', '@D/l0.prophy'], diamond))
+    # the C++ generators walk the includes as well (check_cpp_names, D169)
+    cases.append(('diamond-shaped include graph, 24 levels, --cpp_out', ['--cpp_out', '@D', '-I', '@D', '@D/l0.prophy'], diamond))
+    cases.append(('diamond-shaped include graph, 24 levels, --cpp_full_out', ['--cpp_full_out', '@D', '-I', '@D', '@D/l0.prophy'], diamond))
     xdiamond = {}
     for i in range(24):
         for side in 'lr':
@@ -362,6 +365,23 @@ def run_c13(tier):
         case('includes', outs + ['@D/common.prophy', '@D/a.prophy', '@D/b.prophy'], empty_inc, 'empty input included by later inputs')
         case('includes', outs + ['@D/common.prophy', '@D/./common.prophy'], empty_inc, 'the same empty file twice')
         case('includes', ['--isar'] + outs + ['@D/e.xml', '@D/e.xml'], {'e.xml': '<dom/>'}, 'the same empty isar file twice')
+        # reference chains that cross an include boundary (the per-file sort cannot see them): ending in a cycle that does not
+        # contain the name the expression starts from, self references, forward references into the includer
+        XI = '<x xmlns:xi="http://www.w3.org/2001/XInclude"><xi:include href="inc.xml"/>%s</x>'
+        use = '<struct name="S"><member name="x" type="u8"><dimension size="%s"/></member></struct>'
+        for note, inc, body in [
+            ('typedef chain A -> B -> B', '<typedef name="A" type="B"/>', '<typedef name="B" type="A"/>' + use % 'A*2'),
+            ('typedef chain, expression names B', '<typedef name="A" type="B"/>', '<typedef name="B" type="A"/>' + use % 'B*2'),
+            ('typedef chain, plain name', '<typedef name="A" type="B"/>', '<typedef name="B" type="A"/>' + use % 'A'),
+            ('constant chain A -> B -> B', '<constant name="A" value="B"/>', '<constant name="B" value="B"/><constant name="C" value="A+1"/>' + use % 'C'),
+            ('constant chain A -> B -> C -> B', '<constant name="A" value="B"/>',
+             '<constant name="B" value="C"/><constant name="C" value="B"/><constant name="D" value="(A)*2"/>' + use % 'A+1'),
+            ('constant defined through the includer', '<constant name="A" value="B+1"/>', '<constant name="B" value="A+1"/>' + use % 'B'),
+            ('enumerator chain', '<enum name="E"><enum-member name="E_A" value="K"/></enum>', '<constant name="K" value="E_A"/>' + use % 'K+1'),
+            ('typedef of a later struct used as a size', '<typedef name="A" type="S"/>', use % 'A+1'),
+        ]:
+            for extra in ([], ['--cpp_out', '@D'], ['--cpp_full_out', '@D']):
+                case('includes', ['--isar'] + outs + extra + ['@D/main.xml'], {'inc.xml': '<x>%s</x>' % inc, 'main.xml': XI % body}, 'isar, across an include: ' + note)
         os.makedirs(os.path.join(root, 'dirinc'), exist_ok=True)
         case('includes', outs + ['-I', '@D', '@D/a.prophy'], {'a.prophy': '#include "sub"\nstruct A { u8 a; };\n', 'sub/keep': ''}, 'include names a directory')
         case('includes', outs + ['@D/sub'], {'sub/keep': ''}, 'input is a directory')
